@@ -17,6 +17,8 @@ Full-strength statements that are FALSE of the current code are proved false on 
   d24  BODY[HEADER]/BODY[TEXT] of a message whose own Content-Type is message/rfc822 are those of the
        embedded message                                           header_text_top_witness / header_text_top_partial
   anomaly  a numeric path below a part without children is ignored    part_leaf_ignores_path_witness
+  d28  a requested field name that is not ASCII is folded with Unicode rules (U+212A -> k, U+0130 -> i)
+                                                  fields_case_insensitive_witness / fields_case_insensitive_partial
 -/
 import GluonModel.Lemmas.Rfc822
 import GluonModel.Generated.Facts.Rfc822
@@ -381,6 +383,65 @@ theorem fields_all_is_header (h : Bytes) (es : List Entry) (want : List Bytes) (
   rw [hf]
   exact (fields_exact h es hp).2
 
+/-! ### which side a field lands on: selection by name, case-insensitively -/
+
+/-- Full strength over the model, for every header, entry and requested list: a field (an entry with a key
+    that is not white space only) is returned by `HEADER.FIELDS (names)` iff `strings.ToLower` of one of the
+    requested names equals the field's lower-cased name, and by `HEADER.FIELDS.NOT (names)` iff none does.
+    Nothing else about the name (token or not, punctuation, digits) enters the decision. -/
+theorem fields_select_by_name (names : List Bytes) (h : Bytes) (e : Entry)
+    (hk : e.hasKey = true) (hs : isSpaceOnly (e.all h) = false) :
+    (selects false (names.map goLower) h e = true ↔ ∃ n ∈ names, goLower n = lowerBytes (e.key h)) ∧
+    (selects true (names.map goLower) h e = true ↔ ¬ ∃ n ∈ names, goLower n = lowerBytes (e.key h)) := by
+  constructor
+  · rw [selects_iff false _ h e hk hs]; simp [Entry.mapKey]
+  · rw [selects_iff true _ h e hk hs]; simp [Entry.mapKey]
+
+/-- The source says so (regenerated): the only name normalisation in `rfc822.NewHeader` (index key, `mapKey`) and
+    in `Header.Fields` / `Header.FieldsNot` (requested names) is `strings.ToLower` — the function the model's
+    `Entry.mapKey` / `goLower` render; `bytes.TrimSpace` is the white-space-only test (`isSpaceOnly`).  A change
+    of the normal form (another fold function on either side) changes this fact. -/
+theorem name_fold_is_tolower :
+    Facts.headerNameCalls =
+      [("Fields", ["bytes.TrimSpace", "strings.ToLower"]), ("FieldsNot", ["bytes.TrimSpace", "strings.ToLower"]),
+       ("NewHeader", ["strings.ToLower"])] := by decide
+
+/-- The statement one wants — "selected iff the name equals a requested name up to ASCII letter case" — is
+    FALSE of the current code for requested names that are not ASCII: `strings.ToLower` folds U+212A KELVIN
+    SIGN to `k` (and U+0130 to `i`), so `BODY[HEADER.FIELDS ({5}\r\n\xe2\x84\xaaEY)]` returns the field
+    `Key: v` although no ASCII case variant of `Key` was asked for (replayed on the real code: finding
+    K-header-fields-unicode-fold). -/
+theorem fields_case_insensitive_witness :
+    let h : Bytes := [75, 101, 121, 58, 32, 118, 13, 10, 13, 10]            -- "Key: v\r\n\r\n"
+    let asked : Bytes := [0xE2, 0x84, 0xAA, 69, 89]                         -- U+212A "EY"
+    parseEntries h = .ok [⟨0, 3, 5, 8⟩, ⟨8, 8, 8, 10⟩] ∧
+    fields h [⟨0, 3, 5, 8⟩, ⟨8, 8, 8, 10⟩] ([asked].map goLower) = h ∧
+    fieldsNot h [⟨0, 3, 5, 8⟩, ⟨8, 8, 8, 10⟩] ([asked].map goLower) = [13, 10] ∧
+    lowerBytes asked ≠ lowerBytes [75, 101, 121] := by decide
+
+/-- Under the named hypothesis that the requested names are ASCII (`IsAscii`; every name an RFC 5322 header can
+    have is), selection is exactly ASCII case-insensitive equality of the whole name: a field is returned by
+    `HEADER.FIELDS` iff some requested name equals its name after mapping `A`–`Z` to `a`–`z` on both sides —
+    byte for byte otherwise, for token and non-token names alike — and by `HEADER.FIELDS.NOT` iff none does. -/
+theorem fields_case_insensitive_partial (names : List Bytes) (h : Bytes) (e : Entry)
+    (AsciiNames : ∀ n ∈ names, IsAscii n)
+    (hk : e.hasKey = true) (hs : isSpaceOnly (e.all h) = false) :
+    (selects false (names.map goLower) h e = true ↔ ∃ n ∈ names, lowerBytes n = lowerBytes (e.key h)) ∧
+    (selects true (names.map goLower) h e = true ↔ ¬ ∃ n ∈ names, lowerBytes n = lowerBytes (e.key h)) := by
+  rw [map_goLower_ascii names AsciiNames]
+  constructor
+  · rw [selects_iff false _ h e hk hs]; simp [Entry.mapKey]
+  · rw [selects_iff true _ h e hk hs]; simp [Entry.mapKey]
+
+/-- … so the letter case in which the client writes the names is not observable in the data: two ASCII
+    request lists that agree up to letter case get the same bytes for every message, path and oracle. -/
+theorem fields_case_variants_partial (ct : Bytes → CT) (lit : Bytes) (path : List Int) (neg : Bool)
+    (names names' : List Bytes) (AsciiNames : ∀ n ∈ names, IsAscii n) (AsciiNames' : ∀ n ∈ names', IsAscii n)
+    (hcase : names.map lowerBytes = names'.map lowerBytes) :
+    fetchBodySection ct lit ⟨path, .fields neg names⟩ = fetchBodySection ct lit ⟨path, .fields neg names'⟩ := by
+  unfold fetchBodySection
+  simp only [map_goLower_ascii names AsciiNames, map_goLower_ascii names' AsciiNames', hcase]
+
 /-! ### literal framing -/
 
 /-- Every literal-carrying item is `name SP {N} CRLF` followed by the data, and reading such a literal
@@ -427,6 +488,22 @@ example :
     parseEntries h = .ok [⟨0, 1, 3, 6⟩, ⟨6, 7, 11, 14⟩, ⟨14, 14, 14, 16⟩] ∧
     fields h [⟨0, 1, 3, 6⟩, ⟨6, 7, 11, 14⟩, ⟨14, 14, 14, 16⟩] [[98]] = [66, 58, 13, 10, 32, 99, 13, 10, 13, 10] ∧
     fieldsNot h [⟨0, 1, 3, 6⟩, ⟨6, 7, 11, 14⟩, ⟨14, 14, 14, 16⟩] [[98]] = [65, 58, 32, 98, 13, 10, 13, 10] := by decide
+
+/-- selection by name: `X-Spam/Score` (not a token) is found under `x-spam/SCORE`, not under `X-Spam-Score`
+    nor under ``X-Spam/Score`` with `/` replaced by the byte 32 positions up (`O`) -/
+example :
+    let h : Bytes := [88, 45, 83, 112, 97, 109, 47, 83, 99, 111, 114, 101, 58, 32, 53, 13, 10, 13, 10]
+    let es : List Entry := [⟨0, 12, 14, 17⟩, ⟨17, 17, 17, 19⟩]
+    parseEntries h = .ok es ∧
+    fields h es ([[120, 45, 115, 112, 97, 109, 47, 83, 67, 79, 82, 69]].map goLower) = h ∧
+    fieldsNot h es ([[120, 45, 115, 112, 97, 109, 47, 83, 67, 79, 82, 69]].map goLower) = [13, 10] ∧
+    fields h es ([[88, 45, 83, 112, 97, 109, 45, 83, 99, 111, 114, 101]].map goLower) = [13, 10] ∧
+    fields h es ([[88, 45, 83, 112, 97, 109, 79, 83, 99, 111, 114, 101]].map goLower) = [13, 10] ∧
+    IsAscii [120, 45, 115, 112, 97, 109, 47, 83, 67, 79, 82, 69] := by
+  refine ⟨by decide, by decide, by decide, by decide, by decide, ?_⟩
+  intro c hc
+  simp only [List.mem_cons, List.not_mem_nil, or_false] at hc
+  rcases hc with rfl | rfl | rfl | rfl | rfl | rfl | rfl | rfl | rfl | rfl | rfl | rfl <;> decide
 
 /-- regression of #15: `X-Empty: CRLF Subject: s CRLF CRLF`; `HEADER.FIELDS (X-Empty Subject)` is now the
     exact header (it was `X-EmptySubject: s CRLF CRLF`) -/
